@@ -863,13 +863,12 @@ class Expect:
             quals_here, b, deriv = self.atomic(quals, b, deriv)
             ty = self.chain(deriv, name, quals_here, b, d, dc)
             if "typedef" in storage:
-                out.append(self.N("Typedef", d, ("name", name), ("quals", list(quals_here)), ("storage", storage), ("type", ty), exact=id(dc)))
+                out.append(self.N("Typedef", d, ("name", name), ("quals", list(quals_here)), ("storage", storage), ("type", ty)))
             else:
                 out.append(
                     self.N(
                         "Decl", d, ("name", name), ("quals", list(quals_here)), ("align", align), ("storage", storage), ("funcspec", funcspec),
                         ("type", ty), ("init", None if init is None else self.init(init)), ("bitsize", None if bits is None else self.expr(bits)),
-                        exact=(id(dc) if name is not None else None),
                     )
                 )  # fmt: skip
         return out
@@ -961,7 +960,7 @@ class Expect:
                 base = self.N("IdentifierType", x, ("names", ["int"]))
             quals, base, fderiv = self.atomic(quals, base, d[2])
             ty = self.chain(fderiv, d[1], quals, base, x, d)
-            decl = self.N("Decl", x, ("name", d[1]), ("quals", list(quals)), ("align", align), ("storage", storage), ("funcspec", funcspec), ("type", ty), ("init", None), ("bitsize", None), exact=id(d))
+            decl = self.N("Decl", x, ("name", d[1]), ("quals", list(quals)), ("align", align), ("storage", storage), ("funcspec", funcspec), ("type", ty), ("init", None), ("bitsize", None))
             pd = None
             if knr is not None:
                 pd = [n for kd in knr for n in self.declaration(kd)]
